@@ -171,6 +171,8 @@ Inductive op :=
 | ORotate (v v' : Z)                      (* recovery MsgRotateRecoveryAddress (accepted): validator record moves to address v' *)
 | OGenesis (over : list (Z * sinfo))      (* staking + slashing ExportGenesis, then InitGenesis into an empty store (InitChain);
                                              over = signing infos edited in the exported genesis file before the import *)
+| OUpgrade                                (* second BeginBlock of a due upgrade plan whose non-approving voters were paused in the
+                                             block before (ProcessedNoVoteValidators): the plan becomes current; no validator is touched *)
 | OSetProp (which value : Z) (accepted : bool).
                                           (* passed SetNetworkProperty proposal (handler Apply) for 0 MischanceConfidence, 1 MaxMischance,
                                              2 MischanceRankDecreaseAmount, 3 DowntimeInactiveDuration, 4 UnjailMaxTime, 5 MinValidators; accepted = what the
@@ -364,6 +366,7 @@ Definition step (cfg : config) (s : state) (o : op) : state * res :=
                 (st_si s) (st_jail s) (st_pk s) (st_time s) (st_height s) (st_cset s) (st_halt s), ROk)
       end
   | OGenesis over => genesis_import over s
+  | OUpgrade => (s, ROk)
   | OSetProp _ _ accepted => (s, if accepted then ROk else RRej)
   end.
 
